@@ -133,6 +133,7 @@ type uciWorld struct {
 	rdPartial    string // reader-side bytes of the current unfinished line
 	anyInterrupt bool
 	stackBuf     []byte
+	needInspect  bool
 	readyokOwed  int // isready lines handed to the reader minus readyok lines seen at the writer
 	pending      []byte
 	hasPend      bool
@@ -352,6 +353,9 @@ func (w *uciWorld) settle() {
 				case w.rd.ch <- chunk:
 					w.pipe = w.pipe[1:]
 					w.readyokOwed += countLines(w.rdPartial+string(chunk), "isready")
+					if strings.IndexByte(string(chunk), '\n') >= 0 {
+						w.needInspect = true
+					}
 					w.rdPartial = w.afterChunk(chunk)
 					synctest.Wait()
 					w.ev("READ", string(chunk), 0)
@@ -406,10 +410,10 @@ func (w *uciWorld) settle() {
 // waiting in its select and whether the reader is holding an undelivered line.
 func (w *uciWorld) inspect() {
 	w.hazard, w.readerPending = false, false
-	// the interrupt goroutine can only be outside its select while it writes a
-	// readyok: no isready in flight, no hazard, no need to look
-	if w.readyokOwed <= 0 || (w.cur == nil && !w.anyInterrupt) {
-		w.anyInterrupt = w.cur != nil
+	// the interrupt goroutine leaves its select only to act on an input line:
+	// look at it from the moment a line is handed over during a search until it
+	// has been seen back in the select (or gone)
+	if !w.needInspect && w.readyokOwed <= 0 {
 		return
 	}
 	if w.stackBuf == nil {
@@ -438,6 +442,9 @@ func (w *uciWorld) inspect() {
 				w.readerPending = true
 			}
 		}
+	}
+	if !w.hazard && !w.readerPending {
+		w.needInspect = false
 	}
 }
 
@@ -476,6 +483,9 @@ func (w *uciWorld) afterChunk(chunk []byte) string {
 // could make a second source of the interrupt goroutine's select ready while
 // the first is still unconsumed.
 func (w *uciWorld) safeToPump(chunk []byte) bool {
+	if w.hazard && !w.hasPend {
+		return false // see apply("run")
+	}
 	if !w.realSearchUnparked() {
 		return true
 	}
@@ -546,8 +556,14 @@ func (w *uciWorld) apply(st UStep) bool {
 		}
 		return any
 	case "run":
-		if !w.parked || w.hazard {
+		// while the interrupt goroutine is blocked writing readyok the search
+		// stays put; if it is blocked on anything else (never on the unchanged
+		// tree) only the search itself can release it
+		if !w.parked || (w.hazard && w.hasPend) {
 			return false
+		}
+		if w.hazard {
+			st.CostUS = 0
 		}
 		if st.CostUS > 0 {
 			time.Sleep(time.Duration(st.CostUS) * time.Microsecond)
@@ -620,9 +636,10 @@ func (w *uciWorld) drain(toEnd bool) {
 		switch {
 		case w.hasPend:
 			w.apply(UStep{Op: "grant"})
-		case w.hazard:
-			// cannot happen: a blocked writer of readyok implies a full channel
-			w.ev("STUCK", "hazard without a pending write", 0)
+		case w.hazard && !w.parked:
+			// the interrupt goroutine is blocked outside its select, nothing is
+			// waiting to be written and the search is not at a poll: nobody can move
+			w.ev("STUCK", "interrupt goroutine blocked outside its select", 0)
 			return
 		case w.parked:
 			if pollBudget <= 0 {
